@@ -176,7 +176,7 @@ def make(targets, timeout=1800, jobs=16):
     return ok, "\n".join(logs)
 
 
-def audit(audit_file, allow_axioms=(), timeout=600):
+def audit(audit_file, allow_axioms=(), timeout=2400):
     """Compile coq/audit/<file> (Check pins + Print Assumptions). Returns dict:
     ok, n_print (number of Print Assumptions answered), axioms (set), log"""
     path = os.path.join(COQ, "audit", audit_file)
@@ -222,8 +222,12 @@ HEADER = "Set Printing Width 10000000.\n"   # default Printing Depth: a huge dep
 
 def _run_shard(args):
     path, timeout = args
-    p = sh(["timeout", str(timeout), "coqc", "-noglob", "-Q", os.path.join(COQ, "theories"), "VP", path],
-           cwd=os.path.dirname(path), timeout=timeout + 30)
+    # a shard that times out on a loaded machine is retried with a longer limit: a timeout is not a disagreement
+    for t in (timeout, 3 * timeout):
+        p = sh(["timeout", str(t), "coqc", "-noglob", "-Q", os.path.join(COQ, "theories"), "VP", path],
+               cwd=os.path.dirname(path), timeout=t + 30)
+        if p.returncode != 124:
+            break
     return path, p.returncode, p.stdout, p.stderr
 
 
